@@ -76,12 +76,12 @@ DEEP = [
 
 def mkinv(**kw):
     """invocation vector of Model/Cli.v: everything fine unless stated otherwise"""
-    d = dict(in_regular=1, out_is_in=0, parser_test=0, has_cmd=1, cmd_regular=1, cmd_exec=1, has_cc=0, cc_regular=1, cc_exec=1, jobs_ok=1,
-             cmd_runs=1, cc_runs=1, golden_has_match=1, interrupted=0, internal=0)
+    d = dict(in_regular=1, out_ok=1, out_is_in=0, parser_test=0, has_cmd=1, cmd_regular=1, cmd_exec=1, has_cc=0, cc_regular=1, cc_exec=1, jobs_ok=1,
+             limits_ok=1, in_decodable=1, cmd_runs=1, cc_runs=1, golden_has_match=1, interrupted=0, internal=0)
     assert set(kw) <= set(d)
     d.update(kw)
-    return [d[k] for k in ('in_regular', 'out_is_in', 'parser_test', 'has_cmd', 'cmd_regular', 'cmd_exec', 'has_cc', 'cc_regular', 'cc_exec', 'jobs_ok',
-                           'cmd_runs', 'cc_runs', 'golden_has_match', 'interrupted', 'internal')]
+    return [d[k] for k in ('in_regular', 'out_ok', 'out_is_in', 'parser_test', 'has_cmd', 'cmd_regular', 'cmd_exec', 'has_cc', 'cc_regular', 'cc_exec', 'jobs_ok',
+                           'limits_ok', 'in_decodable', 'cmd_runs', 'cc_runs', 'golden_has_match', 'interrupted', 'internal')]
 
 
 def inprocess_pipeline(impl, text):
@@ -290,6 +290,8 @@ def run(ctx):
         noshebang = os.path.join(d, 'noshebang')
         open(noshebang, 'w').write('echo hi\n')
         os.chmod(noshebang, 0o755)
+        badutf = os.path.join(d, 'bad.smt2')
+        open(badutf, 'wb').write(b'(assert bug)\n(assert |\xff|)\n')
         cases += [
             ('command output is not UTF-8', [good, out, nonutf], mkinv()),
             ('command has no valid executable format', [good, out, garbage], mkinv(cmd_runs=0)),
@@ -302,6 +304,16 @@ def run(ctx):
             ('zero jobs, ddmin', ['-j', '0', '--strategy', 'ddmin', good, out] + cmd, mkinv(jobs_ok=0)),
             ('negative jobs', ['-j', '-3', good, out] + cmd, mkinv(jobs_ok=0)),
             ('output file is the input file', [good, good] + cmd, mkinv(out_is_in=1)),
+            ('output file in a directory that does not exist', [good, os.path.join(d, 'nodir', 'out.smt2')] + cmd, mkinv(out_ok=0)),
+            ('output file is a directory', [good, os.path.join(d, 'adir')] + cmd, mkinv(out_ok=0)),
+            ('--timeout inf', ['--timeout', 'inf', good, out] + cmd, mkinv(limits_ok=0)),
+            ('--timeout nan', ['--timeout', 'nan', good, out] + cmd, mkinv(limits_ok=0)),
+            ('--timeout 1e30', ['--timeout', '1e30', good, out] + cmd, mkinv(limits_ok=0)),
+            ('--timeout-cc nan', ['-c', ' '.join(cmd), '--timeout-cc', 'nan', good, out] + cmd, mkinv(has_cc=1, limits_ok=0)),
+            ('--memout too large', ['--memout', '20000000000000', good, out] + cmd, mkinv(limits_ok=0)),
+            ('input file is not valid UTF-8', [badutf, out] + cmd, mkinv(in_decodable=0)),
+            ('cross-check golden run lacks --match-out-cc', ['-c', ' '.join(cmd), '--match-out-cc', 'nosuchstring', good, out] + cmd, mkinv(has_cc=1, golden_has_match=0)),
+            ('cross-check golden run lacks --match-err-cc', ['-c', ' '.join(cmd), '--match-err-cc', 'nosuchstring', good, out] + cmd, mkinv(has_cc=1, golden_has_match=0)),
             ('several usage errors at once', ['-j', '0', '-c', noexec, good, good, noexec], mkinv(out_is_in=1, cmd_exec=0, has_cc=1, cc_exec=0, jobs_ok=0)),
         ]
         mcalls = [(45, inv) for _, _, inv in cases]
